@@ -209,8 +209,16 @@ func (db *contractDB) loadContractFile(path, pkgPath string) error {
 				}
 			}
 			c.Ref = ref
-			if _, dup := db.Contracts[ref]; dup {
-				return fail("duplicate contract for %s", ref)
+			if prev, dup := db.Contracts[ref]; dup {
+				// further clauses for a function that already has a contract block are merged into it
+				if prev.Interface != c.Interface || prev.External != c.External {
+					return fail("conflicting contract kinds for %s", ref)
+				}
+				if len(prev.Names) == 0 {
+					prev.Names = c.Names
+				}
+				cur = prev
+				continue
 			}
 			db.Contracts[ref] = c
 			cur = c
